@@ -109,6 +109,14 @@ pub struct SCfg {
     /// an already-passed one as zero
     #[serde(default)]
     pub via_serde: bool,
+    /// the connection has been open and idle for this long before the first request arrives
+    /// (request deadlines are still relative to the start of the run)
+    #[serde(default)]
+    pub start_age_ms: i64,
+    /// the limit is configured on the listener (`Incoming::max_concurrent_requests_per_channel`)
+    /// instead of on the channel (`Channel::max_concurrent_requests`)
+    #[serde(default)]
+    pub limit_via_incoming: bool,
 }
 
 fn default_dup_deadline() -> i64 {
@@ -368,17 +376,31 @@ impl World {
             },
             MockTransport::new(core.clone()),
         );
+        let limited = |bc: BC, l: usize| -> tarpc::server::limits::requests_per_channel::MaxRequests<BC> {
+            if cfg.limit_via_incoming {
+                use tarpc::server::incoming::Incoming;
+                let mut listener = Box::pin(futures::stream::iter(vec![bc]).max_concurrent_requests_per_channel(l));
+                let waker = futures::task::noop_waker();
+                let mut cx = Context::from_waker(&waker);
+                match listener.as_mut().poll_next(&mut cx) {
+                    Poll::Ready(Some(c)) => c,
+                    _ => unreachable!("the listener adaptor yields the channel at once"),
+                }
+            } else {
+                bc.max_concurrent_requests(l)
+            }
+        };
         let stream = match (cfg.route, cfg.limit) {
             (Route::Requests, None) => Reqs::Plain(Box::pin(bc.requests())),
             (Route::Requests, Some(l)) => {
-                Reqs::Limited(Box::pin(bc.max_concurrent_requests(l).requests()))
+                Reqs::Limited(Box::pin(limited(bc, l).requests()))
             }
             (Route::Execute, None) => Reqs::Exec(Box::pin(
                 bc.execute(mk_serve(gates.clone()))
                     .map(|f| Box::pin(f) as HFut),
             )),
             (Route::Execute, Some(l)) => Reqs::Exec(Box::pin(
-                bc.max_concurrent_requests(l)
+                limited(bc, l)
                     .execute(mk_serve(gates.clone()))
                     .map(|f| Box::pin(f) as HFut),
             )),
@@ -1084,6 +1106,12 @@ pub fn execute(cfg: &SCfg, prefix: &[u16], suppress_cancel: Option<u32>) -> Exec
     rt.block_on(tokio::task::unconstrained(async {
         let w = World::new(cfg, prefix, suppress_cancel);
         w.fingerprint();
+        if cfg.start_age_ms > 0 {
+            // the channel exists (and is polled once) before the idle period
+            w.apply(Ev::PollStream);
+            tokio::time::advance(Duration::from_millis(cfg.start_age_ms as u64)).await;
+            w.log.push(Rec::N("time", vec![w.log.now_ns()]));
+        }
         if cfg.burst {
             for k in 0..cfg.reqs.len() {
                 if cfg.reqs[k].cancel || w.reuse_ok(&w.st.borrow(), cfg.reqs[k].id) {
